@@ -25,7 +25,7 @@ const half = 500 * time.Millisecond
 type op struct {
 	at   time.Duration
 	who  string // o1 | o2
-	kind string // once | loop | cron | badcron | cancel | clear | kill | restart | killrecv | kill-sched | restart-sched (the owner's OnKill handler schedules a Loop "k" to /r while it is dying / being restarted)
+	kind string // stashnext (the owner stashes the next scheduled message it receives) | unstash | once | loop | cron | badcron | cancel | clear | kill | restart | killrecv | kill-sched | restart-sched (the owner's OnKill handler schedules a Loop "k" to /r while it is dying / being restarted)
 	ref  string
 	d    time.Duration
 	recv string // self | r | o1 | o2 (another owner)
@@ -147,6 +147,7 @@ func scenario(name string, ops []op, bounds []int) *vexp.Scenario {
 				}
 			}
 			schedOnKillDone := map[string]bool{}
+			stashNext := map[string]int{}
 			results := map[string]error{}
 			actual := make([]time.Duration, len(ops))
 			mkOwner := func(who string) *vsys.Script {
@@ -159,6 +160,11 @@ func scenario(name string, ops []op, bounds []int) *vexp.Scenario {
 				name = who
 				s.OnMsg = func(a *vsys.Act, ctx vivid.ActorContext, m vsys.Msg) {
 					if !strings.HasPrefix(m.ID, "op:") {
+						if stashNext[name] > 0 && strings.HasPrefix(m.ID, "job:") {
+							stashNext[name]--
+							ctx.Stash() // it counts as delivered when it comes back from the stash, carrying its own value
+							return
+						}
 						rec(a, ctx, m)
 						return
 					}
@@ -183,6 +189,10 @@ func scenario(name string, ops []op, bounds []int) *vexp.Scenario {
 						err = ctx.Scheduler().Cron(recv, "*/2 * * * * *", payload, vivid.WithSchedulerReference(o.ref))
 					case "badcron":
 						err = ctx.Scheduler().Cron(recv, "this is not cron", payload, vivid.WithSchedulerReference(o.ref))
+					case "stashnext":
+						stashNext[name]++
+					case "unstash":
+						ctx.Unstash(99)
 					case "cancel":
 						err = ctx.Scheduler().Cancel(o.ref)
 					case "clear":
@@ -364,10 +374,10 @@ func scenario(name string, ops []op, bounds []int) *vexp.Scenario {
 						x.Fail("invalid-cron-rejected", "Cron with an invalid expression returned %v", err)
 					}
 				case "once", "loop", "cron":
-					if err != nil {
+					if err != nil && !known[o.who+"/"+o.ref] {
 						x.Fail("schedule-succeeds", "%v returned %v", o, err)
 					}
-					known[o.who+"/"+o.ref] = true
+					known[o.who+"/"+o.ref] = true // (registering a reference that is already registered may be refused or ignored: either way the first job stands)
 				case "cancel":
 					if !known[o.who+"/"+o.ref] {
 						if err == nil || !errors.Is(err, vivid.ErrorNotFound) {
@@ -438,6 +448,16 @@ func build(tier string) []*vexp.Scenario {
 	// jobs registered by the death sequence itself (OnKill handler) die with the incarnation too
 	add("sched-in-onkill/kill", op{0, "o1", "loop", "a", s, "self"}, op{s + half, "o1", "kill-sched", "", 0, "self"})
 	add("sched-in-onkill/restart", op{0, "o1", "loop", "a", s, "self"}, op{s + half, "o1", "restart-sched", "", 0, "self"})
+	// the same reference registered again while the first job is pending: the first job stands and stays cancellable / clearable
+	for _, jk := range []string{"once", "loop"} {
+		for _, term := range []string{"cancel", "clear", "kill", "restart"} {
+			add("registered-twice/"+jk+"+"+term, op{0, "o1", jk, "a", 2 * s, "r"}, op{half, "o1", jk, "a", 2 * s, "r"}, op{s, "o1", term, "a", 0, "r"})
+		}
+		add("registered-twice/"+jk, op{0, "o1", jk, "a", 2 * s, "r"}, op{half, "o1", "once", "a", s, "r"})
+	}
+	// scheduled messages that the receiver stashes come back with their own value
+	add("stash-scheduled/two-onces", op{0, "o1", "stashnext", "", 0, "self"}, op{0, "o1", "once", "a", s, "self"}, op{0, "o1", "once", "b", 2 * s, "self"}, op{3 * s, "o1", "unstash", "", 0, "self"})
+	add("stash-scheduled/loop-and-once", op{0, "o1", "stashnext", "", 0, "self"}, op{0, "o1", "stashnext", "", 0, "self"}, op{0, "o1", "once", "a", s, "self"}, op{0, "o1", "loop", "b", 2 * s, "self"}, op{0, "o1", "once", "c", 3 * s, "self"}, op{3*s + half, "o1", "unstash", "", 0, "self"})
 	// receiver dies, job lives
 	add("receiver-dies", op{0, "o1", "loop", "a", s, "r"}, op{s + half, "o1", "killrecv", "", 0, "r"}, op{3*s + half, "o1", "cancel", "a", 0, "r"})
 	return out
